@@ -37,6 +37,7 @@ def toB (loops : List LoopRec) : Instr → BInstr
   | .removeScope => .removeScope
   | .createClosure _ => .createClosure
   | .prepareCall _ n => .prepareCall n
+  | .tailGuard _ skip => .tailGuard skip
   | .pushLazy _ => .pushLazy
   | .loopStart l => .loopStart l
   | .label => .label
@@ -853,7 +854,7 @@ theorem bal_compile (isFn : Nat → Bool) : ∀ (e : Expr) (c : Ctx) (gs : GS) (
     simp only [compile, bind_ok, pure_ok] at h
     obtain ⟨⟨a, ta⟩, gs1, h1, ⟨b, tb⟩, gs2, h2, heq⟩ := h
     simp only [okA, Bool.and_eq_true] at hok
-    obtain ⟨_, iha⟩ := bal_compile isFn l c gs a ta gs1 hc hok.1 h1
+    obtain ⟨_, iha⟩ := bal_compile isFn l { c with tail := false } gs a ta gs1 rfl hok.1 h1
     obtain ⟨_, ihb⟩ := bal_compile isFn r { c with tail := false } gs1 b tb gs2 rfl hok.2 h2
     cases heq
     refine ⟨rfl, fun Γ T σ hσ => ?_⟩
